@@ -193,6 +193,8 @@ class ConvexSpheropolygon(Shape2D):
         For more general information about this calculation, see
         `Shape.distance_to_surface`.
         """
+        # The angle ranges below are expressed in [0, 2 pi).
+        angles = np.mod(angles, 2 * np.pi)
         num_verts = self.num_vertices
         verts = self._polygon.vertices[:, :2] - self._polygon.centroid[:2]
 
@@ -229,7 +231,12 @@ class ConvexSpheropolygon(Shape2D):
         angle_ranges[angle_ranges < 0] += 2 * np.pi
 
         # compute shape kernel for the new set of vertices
-        kernel = ConvexPolygon(new_verts).distance_to_surface(angles)
+        # The expanded vertices are relative to the centroid of the core polygon
+        # (the origin here), which is generally not the centroid of the expanded
+        # polygon.
+        kernel = ConvexPolygon(new_verts)._distance_to_surface_from(
+            np.zeros(3), angles
+        )
 
         # get the shape kernel for this shape by adjusting indices of shape kernel
         # for the new vertices
